@@ -1,9 +1,15 @@
-"""T1: opcode tables and interpreter limits of the working tree -> lean/BtcVerif/Generated/Opcodes.lean
+"""T1: opcode VALUES and interpreter limits of the working tree -> lean/BtcVerif/Generated/Opcodes.lean
 
-Read by importing the working-tree modules: OPCODE_NAMES (all 256 values are looked up, unnamed ones are
-absent), OPCODES_BY_NAME, DISABLED_OPCODES, MAX_SCRIPT_SIZE / MAX_SCRIPT_ELEMENT_SIZE / MAX_SCRIPT_OPCODES,
-and scripteval's MAX_STACK_ITEMS, MAX_NUM_SIZE, _ISA_UNOP, _ISA_BINOP.  Every module-level OP_* constant must
-be the CScriptOp of the value the by-name table gives it (otherwise the dump itself fails -> broken tie).
+What the properties name and the obligations of Tables/Opcodes.lean therefore pin (blocking):
+  * the VALUE of every opcode constant the reference knows (`OP_DUP` is 0x76, ...): read from the public module
+    constants `bitcoin.core.script.OP_*` and from OPCODES_BY_NAME — the table may contain MORE (aliases, new names);
+  * DISABLED_OPCODES; the five limits (MAX_SCRIPT_SIZE, MAX_SCRIPT_ELEMENT_SIZE, MAX_SCRIPT_OPCODES and scripteval's
+    MAX_STACK_ITEMS, MAX_NUM_SIZE);
+  * the unary / binary numeric opcode sets when scripteval exposes them (private helpers: fall back to the reference
+    sets when a refactoring removes or renames them — the classification is tied by the correspondence run anyway).
+NOT pinned (evidence only, audit 3 / A9): display NAMES (OPCODE_NAMES: repr and message texts).  The dump still lists
+them (`names`) so that a reader sees them, no obligation mentions that field.  Nothing here asserts: a table that cannot
+be read shows up as a missing entry in the generated file, i.e. as a failed obligation, not as a crash of the dumper.
 """
 
 
@@ -19,21 +25,23 @@ def dump(repo):
     import bitcoin.core.script as S
     import bitcoin.core.scripteval as E
     names = []
+    table = getattr(S, 'OPCODE_NAMES', {})
     for v in range(256):
-        if v in S.OPCODE_NAMES:
-            names.append((v, S.OPCODE_NAMES[v]))
-        # repr() of the interned instance must agree with the table (the interpreter formats through it)
-        assert int(S.CScriptOp(v)) == v
-    extra = [k for k in S.OPCODE_NAMES if not (isinstance(k, int) and 0 <= k <= 255)]
-    assert not extra, 'OPCODE_NAMES has keys outside 0..255: %r' % extra
-    byname = sorted((str(k), int(v)) for k, v in S.OPCODES_BY_NAME.items())
-    for k, v in byname:
-        if hasattr(S, k):
-            assert int(getattr(S, k)) == v, 'module constant %s disagrees with OPCODES_BY_NAME' % k
+        if v in table:
+            names.append((v, table[v]))
+    byname = {}
+    for k, v in getattr(S, 'OPCODES_BY_NAME', {}).items():
+        try:
+            byname[str(k)] = int(v)
+        except (TypeError, ValueError):
+            pass
+    # the public module constants win: they are what scripteval and every caller use
     for k in dir(S):
-        if k.startswith('OP_') and isinstance(getattr(S, k), S.CScriptOp) and k not in ('OP_FALSE', 'OP_TRUE',
-                                                                                       'OP_INVALIDOPCODE'):
-            assert k in S.OPCODES_BY_NAME, 'module constant %s missing from OPCODES_BY_NAME' % k
+        if k.startswith('OP_'):
+            v = getattr(S, k)
+            if isinstance(v, int) and not isinstance(v, bool):
+                byname[k] = int(v)
+    byname = sorted(byname.items())
     dis = sorted(int(x) for x in S.DISABLED_OPCODES)
     # _ISA_UNOP/_ISA_BINOP are PRIVATE helpers of scripteval: when a refactoring removes or renames them the
     # classification of numeric opcodes is still tied by the correspondence run (every 1-opcode program), so
